@@ -1,5 +1,7 @@
 //! Map type
 use super::*;
+#[cfg(texcraft_verif)]
+use ::std;
 use std::borrow::Cow;
 use std::cell::{Ref, RefCell};
 use std::collections::HashMap;
